@@ -34,7 +34,10 @@ RULE = ("cell = (user spelling in {name, numeric string, int, absent}, group spe
         "is non-trivial")
 
 USERS = [("www-data", 33), ("33", 33), (33, 33), (None, None), ("nobody", 65534), ("54321", 54321), (54321, 54321)]   # 54321: no account
-GROUPS = [("nogroup", 65534), ("65534", 65534), ("www-data", 33), (None, None), (33, 33)]
+GROUPS = [("nogroup", 65534), ("65534", 65534), ("www-data", 33), (None, None), (33, 33),
+          # ids are unsigned 32-bit numbers: the upper half of the range is as good as the lower
+          (2147483648, 2147483648), ("4294967294", 4294967294)]
+BIG_USER = (3000000000, 3000000000)        # no account either
 
 
 def expected_groups(uid, gid):
@@ -713,10 +716,11 @@ def scenarios(tier, seed):
                     continue
                 cells.append((u, g, ig))
     rng.shuffle(cells)
-    n = 12 if tier == "quick" else len(cells)
+    n = 14 if tier == "quick" else len(cells)
     # always include the canonical cells
     must = [(("www-data", 33), ("nogroup", 65534), True), (("www-data", 33), ("nogroup", 65534), False),
-            ((None, None), ("nogroup", 65534), True), (("33", 33), (None, None), False)]
+            ((None, None), ("nogroup", 65534), True), (("33", 33), (None, None), False),
+            (("www-data", 33), GROUPS[5 + seed % 2], bool(seed % 2)), (BIG_USER, GROUPS[6 - seed % 2], True)]
     chosen = must + [c for c in cells if c not in must][:max(0, n - len(must))]
     for i, (u, g, ig) in enumerate(chosen):
         out.append({"user": list(u), "group": list(g), "initgroups": ig, "class": classes[i % 4],
@@ -788,6 +792,8 @@ def shard(sh):
     run.count("source/" + sc.get("source", "file"))
     if sc["initgroups"]:
         run.count("initgroups_scenarios")
+    if reason is None and any(isinstance(x, int) and x >= 2 ** 31 for x in (sc["user"][1], sc["group"][1])):
+        run.count("scenarios_with_ids_in_the_upper_half_of_the_range")
     for mech, summary in v:
         run.violation(mech, summary + " | cell=%s" % {k: sc[k] for k in ("user", "group", "initgroups", "class", "bind")}, sc)
     if reason is not None and not v:
@@ -813,7 +819,7 @@ def main(tier, seed):
     except KeyError:
         run.inconclusive_because("precondition: accounts www-data / nogroup are missing")
         return run.finish()
-    run.require("scenarios", "worker_id_checks", "generation/initial", "generation/respawn", "generation/reload", "generation/ttin",
+    run.require("scenarios", "scenarios_with_ids_in_the_upper_half_of_the_range", "worker_id_checks", "generation/initial", "generation/respawn", "generation/reload", "generation/ttin",
                 "generation/upgrade", "application_id_checks", "initgroups_group_checks", "heartbeat_checks",
                 "master_identity_checks", "unix_socket_owner_checks", "class/sync", "class/gthread", "class/gevent",
                 "class/eventlet", "source/file", "source/env", "source/cli", "reloads_changing_the_group", "refused_reload_histories",
